@@ -54,6 +54,10 @@ def _len(lib, run, recv, args, kw):
     from . import libarraylike as AL
     if AL.is_al(v):
         return Num(AL.olen(v.term))
+    if isinstance(v, Lazy) and v.kind == 'setof':
+        s = lib.as_seq(run, v.payload)
+        if s is not None and s.kind == 'A':
+            return Num(card(s.term))
     raise Unsupported('len(%r)' % (v,))
 
 
@@ -1024,3 +1028,14 @@ def mk_iat(u, i):
     if z3.is_app(u) and u.decl().name() == 'islice':
         return mk_iat(u.arg(0), u.arg(1) + i)
     return iat(u, i)
+
+
+card = F('card', ASeq, Int)        # len(set(s))
+_sq = z3.Const('sq', ASeq)
+axiom('card.def', forall([_sq], z3.And(card(_sq) >= 0, card(_sq) <= T.alen(_sq),
+                                       (card(_sq) == T.alen(_sq)) == T.adistinct(_sq)), [card(_sq)]), ['card'], 'definitional')
+
+
+@reg('np.isclose')
+def _isclose(lib, run, recv, args, kw):
+    return BoolV(F('isclose', Real, Real, Bool)(real(args[0]), real(args[1])))
